@@ -1,4 +1,6 @@
 #![doc = include_str!("../README.md")]
+// The verification hooks are guarded by `--cfg rubato_verif`, which cargo does not know about.
+#![allow(unknown_lints, unexpected_cfgs)]
 
 #[cfg(feature = "log")]
 extern crate log;
@@ -54,6 +56,8 @@ pub use crate::asynchro_sinc::{
 pub use crate::error::{
     CpuFeature, MissingCpuFeature, ResampleError, ResampleResult, ResamplerConstructionError,
 };
+#[cfg(rubato_verif)]
+pub use crate::error::verif_set_cpu_mask;
 pub use crate::sample::Sample;
 #[cfg(feature = "fft_resampler")]
 pub use crate::synchro::{FftFixedIn, FftFixedInOut, FftFixedOut};
